@@ -146,6 +146,12 @@ func genExpr(r *rand.Rand) [][]FClause {
 }
 
 func (gs *GenState) genMetaC08(r *rand.Rand, gi *GenIdx, ints bool) map[string]any {
+	switch r.Intn(12) {
+	case 0:
+		return nil // a vector without any metadata: != must still match it ("also ids lacking the field")
+	case 1:
+		return map[string]any{}
+	}
 	m := map[string]any{}
 	num := func(x float64) any {
 		if ints && x == math.Trunc(x) && r.Intn(2) == 0 {
@@ -299,7 +305,8 @@ func runQueryHistory(w *World, tr *Trace, prop string) {
 			q += " " + pick(r, words)
 		}
 		if r.Intn(3) == 0 {
-			return Op{K: "q_hybrid", Idx: ix, Q: q, Vec: genVec(r, prof.Dim), Alpha: pick(r, []float64{0, 0.25, 0.5, 1}), KK: 50}
+			// small k: more documents match the text (or are near the vector) than are returned
+			return Op{K: "q_hybrid", Idx: ix, Q: q, Vec: genVec(r, prof.Dim), Alpha: pick(r, []float64{0, 0.25, 0.5, 0.7, 1}), KK: pick(r, []int{1, 2, 3, 5, 50, 50})}
 		}
 		return Op{K: "q_text", Idx: ix, Q: q, KK: 50}
 	}
@@ -661,6 +668,34 @@ func textCheck(w *World, mi *MIdx, op Op, i int, state string) bool {
 			maxT = s
 		}
 	}
+	// the vector leg of the fusion delivers its k nearest documents: only for those is the vector share
+	// known to the engine; a document that enters through the text leg alone is fused with vector share 0
+	// (the property does not say otherwise), so for it both values are accepted
+	vtop := map[string]bool{}
+	{
+		type dd struct {
+			id string
+			d  float64
+		}
+		var all []dd
+		for id := range mi.Vecs {
+			if vd, err := e.VGet(op.Idx, id); err == nil {
+				all = append(all, dd{id, refDistance(mi.Cfg.Metric, op.Vec, vd.Vector)})
+			}
+		}
+		sort.Slice(all, func(a, b int) bool { return all[a].d < all[b].d })
+		// surely inside the vector leg: strictly nearer than the first document the leg leaves out (a tie at
+		// the boundary may go either way)
+		next := math.Inf(1)
+		if op.KK < len(all) {
+			next = all[op.KK].d
+		}
+		for _, x := range all {
+			if x.d < next-math.Abs(next)*1e-6-1e-9 {
+				vtop[x.id] = true
+			}
+		}
+	}
 	seen := map[string]bool{}
 	prev := math.Inf(1)
 	for _, r := range res {
@@ -698,6 +733,9 @@ func textCheck(w *World, mi *MIdx, op Op, i int, state string) bool {
 					tol = math.Inf(1)
 				}
 			}
+		}
+		if !vtop[r.ID] && math.Abs((1-op.Alpha)*tpart-r.Score) <= tol {
+			exp = r.Score // text leg only (or a tie at the boundary of the vector leg)
 		}
 		if math.Abs(exp-r.Score) > tol {
 			w.Fail("hybrid_formula", "hybrid_score", fmt.Sprintf("query %d [%s] hybrid %q alpha=%g: %s scored %.6g, alpha*sim+(1-alpha)*text/max = %g*%.6g + %g*%.6g = %.6g", i, state, op.Q, op.Alpha, r.ID, r.Score, op.Alpha, sim, 1-op.Alpha, tpart, exp), i)
